@@ -443,6 +443,8 @@ func (m SmallMap) Delete(key Object) (Map, bool) {
 		m.smallKV[i] = m.smallKV[i+1]
 	}
 	m.len--
+	// clear the vacated slot: the whole struct is what gets compared and hashed (memoization key)
+	m.smallKV[m.len] = keyValuePair{}
 	return m, true
 }
 
